@@ -1,32 +1,94 @@
 package main
 
 import (
+	"errors"
 	"fmt"
 	"net"
+	"os"
 	"path/filepath"
+	"sync"
 	"time"
 
 	"verif/harness/daemon"
+	"verif/harness/freeport"
 )
 
+// freePort: a loopback port reserved for this process, outside the kernel's ephemeral range (0 = none found).
+// Self-test only: with VD_SELFTEST_TAKEN_PORT set, the first call returns a port this process itself listens on, so
+// that the daemon told to use it finds it taken and startListening has to recover.
 func freePort() int {
-	l, err := net.Listen("tcp", "127.0.0.1:0")
+	if os.Getenv("VD_SELFTEST_TAKEN_PORT") != "" {
+		takenOnce.Do(func() {
+			if l, err := net.Listen("tcp", "127.0.0.1:0"); err == nil {
+				takenKeep, takenPort = l, l.Addr().(*net.TCPAddr).Port // stays open for the life of the process
+			}
+		})
+		setupMu.Lock()
+		p := takenPort
+		takenPort = 0
+		setupMu.Unlock()
+		if p != 0 {
+			return p
+		}
+	}
+	p, err := freeport.Get()
 	if err != nil {
 		return 0
 	}
-	defer l.Close()
 
-	return l.Addr().(*net.TCPAddr).Port
+	return p
+}
+
+var (
+	takenOnce sync.Once
+	takenPort int
+	takenKeep net.Listener
+)
+
+// startListening gives d (a node that has not run yet: nothing of the scenario has happened) a TCP listener port and
+// starts it. A process that gives up because the port was taken after all (somebody outside package freeport bound it
+// in the meantime) is started again on another port: that death says nothing about receptor. A first start that dies
+// for another reason is tried once more; every such retry is recorded with the process's own last words
+// (setupNotes, written into the result) and a second death is returned with them.
+func startListening(d *daemon.Daemon) error {
+	var err error
+	other := 0
+	for attempt := 0; attempt < 5; attempt++ {
+		if d.TCPPort = freePort(); d.TCPPort == 0 {
+			return fmt.Errorf("no free port")
+		}
+		err = d.Start(60 * time.Second)
+		var sd *daemon.StartDied
+		if err == nil || !errors.As(err, &sd) {
+			return err
+		}
+		if !sd.PortTaken() {
+			if other++; other > 1 {
+				return err
+			}
+		}
+		setupNote(fmt.Sprintf("first start of %s in %s retried: %v", d.NodeID, d.Dir, err))
+	}
+
+	return err
+}
+
+var (
+	setupMu    sync.Mutex
+	setupNotes []string
+)
+
+func setupNote(s string) {
+	setupMu.Lock()
+	setupNotes = append(setupNotes, s)
+	setupMu.Unlock()
+	fmt.Fprintln(os.Stderr, "setup:", s)
 }
 
 // startExecutor starts the second node (n2: runs the work, listens on TCP) below dir and points d (n1) at it.
 func startExecutor(bin, dir string, d *daemon.Daemon) (*daemon.Daemon, error) {
 	n2 := daemon.New(bin, filepath.Join(dir, "n2d"), "n2")
-	n2.TCPPort = freePort()
-	if n2.TCPPort == 0 {
-		return nil, fmt.Errorf("no free port")
-	}
-	if err := n2.Start(60 * time.Second); err != nil {
+	if err := startListening(n2); err != nil {
 		return n2, fmt.Errorf("start n2: %v", err)
 	}
 	d.Peers = []string{fmt.Sprintf("127.0.0.1:%d", n2.TCPPort)}
